@@ -10,13 +10,14 @@ INT, BYTES, STR, BOOL, LIST, TUPLE, DICT, NONE, FLOAT, ANY = (
 
 
 class T:
-    __slots__ = ("op", "args", "ty", "_h")
+    __slots__ = ("op", "args", "ty", "_h", "_s")
 
     def __init__(self, op, args, ty=ANY):
         self.op = op
         self.args = tuple(_fzdeep(a) for a in args)
         self.ty = ty
         self._h = hash((op, self.args))
+        self._s = None
 
     def __hash__(self):
         return self._h
@@ -117,7 +118,17 @@ def tyof(v):
 
 
 def sortkey(v):
-    return (0 if not isinstance(v, T) else 1, show(v))
+    return (0 if not isinstance(v, T) else 1, _sk(v))
+
+
+def _sk(v):
+    """show(v) without the depth cut-off, cached on every term node (canonical argument order is computed very often)."""
+    if isinstance(v, T):
+        s = v._s
+        if s is None:
+            s = v._s = _fmt(v, _sk)
+        return s
+    return _fmt(v, _sk)
 
 
 # ----------------------------------------------------------------------------- constructors
@@ -302,6 +313,9 @@ def blen(x):
             n = blen(base)
             if isinstance(lo, int) and isinstance(hi, int) and lo >= 0 and hi >= lo and isinstance(n, int):
                 return max(0, min(hi, n) - lo)
+            if isinstance(n, int) and not isinstance(n, bool) and (lo is None or (isinstance(lo, int) and not isinstance(lo, bool))) and \
+                    (hi is None or (isinstance(hi, int) and not isinstance(hi, bool))):
+                return len(range(*slice(lo, hi).indices(n)))
         if x.op == "hex":
             n = blen(x.args[0])
             if n is not None:
@@ -362,6 +376,10 @@ def slc(x, lo, hi):
             lo, hi = (l2 if l2 else None), (h2 if h2 != n else None)
     if isinstance(x, T) and x.op == "slice":
         b0, lo0, hi0 = x.args
+        n0 = blen(b0)
+        if isinstance(n0, int) and not isinstance(n0, bool) and all(v is None or (isinstance(v, int) and not isinstance(v, bool)) for v in (lo0, hi0, lo, hi)):
+            r = range(n0)[lo0:hi0][lo:hi]  # both slices against the known length of the base
+            return slc(b0, r.start, r.stop) if len(r) else (b"" if tyof(x) == BYTES else slc(b0, 0, 0))
         # (b[lo0:])[lo:hi] with non-negative bounds
         if hi0 is None and _nonneg(lo0) and _nonneg(lo) and (hi is None or _nonneg(hi)):
             nlo = add([lo0, lo if lo is not None else 0])
@@ -407,6 +425,17 @@ def idx(x, i):
             if i < pos + pl:
                 return idx(p, i - pos)
             pos += pl
+    if isinstance(x, T) and isinstance(i, int) and not isinstance(i, bool) and x.op in ("slice", "sized", "i2b", "hash"):
+        n = blen(x)
+        if isinstance(n, int) and not isinstance(n, bool):
+            if not -n <= i < n:
+                return T("raise", ("IndexError",), ANY)
+            if i < 0:
+                i += n
+            if x.op == "slice":
+                nb = blen(x.args[0])
+                if isinstance(nb, int) and (x.args[1] is None or isinstance(x.args[1], int)) and (x.args[2] is None or isinstance(x.args[2], int)):
+                    return idx(x.args[0], range(*slice(x.args[1], x.args[2]).indices(nb))[i])
     if isinstance(x, T) and x.op == "map" and x.args[2] is None:
         body, it = x.args[0], x.args[1]
         depths = [s.args[0] for s in subterms(body) if isinstance(s, T) and s.op in ("bv", "bvi")]
@@ -596,6 +625,13 @@ def cmp(op, a, b):
         a, b, op = b, a, CMP_SWAP[op]
     if op in CMP_SWAP and isinstance(a, T) and isinstance(b, T) and sortkey(a) > sortkey(b):
         a, b, op = b, a, CMP_SWAP[op]  # `n > i` and `i < n` are one term
+    if op in ("in", "notin") and isinstance(a, T):
+        # one byte against a constant set of bytes -- `c in b"abc"`, `bytes([c]) in b"abc"`, `s[i:i+1] in {b"a": .., b"b": ..}` --
+        # is one term: the byte as an integer, the set as sorted bytes
+        one = _single_byte(a)
+        bs = _byte_set(b) if (a.ty == BYTES or isinstance(b, bytes)) else None  # an int is never a member of a collection of bytes objects
+        if one is not None and bs is not None:
+            return T("cmp", (op, one, bs), BOOL)
     if op in ("in", "notin") and isinstance(b, (list, tuple)) and is_conc(b):
         b = tuple(b)
         if not (b and b[0] in ("#list", "#tuple")):
@@ -612,6 +648,39 @@ def cmp(op, a, b):
         r = T("inrange", (a, b.args[0], b.args[1]), BOOL)
         return r if op == "in" else lnot(r)
     return T("cmp", (op, a, freeze(b) if isinstance(b, (list, dict)) else b), BOOL)
+
+
+def _single_byte(a):
+    """The integer value of a term that is exactly one byte (an element of a bytes value, or a 1-byte bytes value); else None."""
+    if a.ty == BYTES:
+        if a.op == "i2b" and a.args[1] == 1 and _is_byte_term(a.args[0]):
+            return a.args[0]
+        if blen(a) == 1:
+            return idx(a, 0)
+        return None
+    if _is_byte_term(a):
+        return a
+    return None
+
+
+def _byte_set(b):
+    """A constant collection of single bytes as sorted bytes: bytes itself (membership of ONE byte), or a dict / tuple / list
+    whose members are all 1-byte bytes; else None."""
+    if isinstance(b, bytes):
+        return bytes(sorted(set(b)))
+    if isinstance(b, tuple) and b and b[0] == "#dict":
+        keys = [kv[0] for kv in b[1:]]
+    elif isinstance(b, dict):
+        keys = list(b.keys())
+    elif isinstance(b, tuple) and b and b[0] in ("#list", "#tuple"):
+        keys = list(b[1:])
+    elif isinstance(b, (list, tuple)):
+        keys = list(b)
+    else:
+        return None
+    if keys and all(isinstance(k, bytes) and len(k) == 1 for k in keys):
+        return bytes(sorted({k[0] for k in keys}))
+    return None
 
 
 def lnot(a):
@@ -636,6 +705,10 @@ def truth(a):
         return ite(a.args[0], truth(_unfz1(a.args[1])), truth(_unfz1(a.args[2])))
     if a.op in ("cat", "scat") and any(isinstance(p, (str, bytes)) and len(p) for p in a.args):
         return True
+    if a.ty == BYTES and a.op in ("slice", "sized", "i2b", "hash"):
+        n = blen(a)
+        if isinstance(n, int) and not isinstance(n, bool):
+            return n > 0  # bytes of a known length are true iff that length is not zero
     if a.op == "band" and len(a.args) == 2 and 128 in a.args and any(_is_byte_term(x) for x in a.args):
         y = [x for x in a.args if _is_byte_term(x)][0]
         return cmp("ge", y, 128)  # the top bit of a byte is set  <=>  the byte is >= 0x80
@@ -862,6 +935,13 @@ def renorm(op, args, ty):
             return rep(a[0], a[1])
         if op == "bitlen" and isinstance(a[0], int):
             return a[0].bit_length()
+        if op in ("lookup", "get") and isinstance(a[0], tuple) and a[0] and a[0][0] == "#dict" and is_conc(a[1]) and not isinstance(a[1], (list, dict)):
+            for kv in a[0][1:]:
+                if veq(kv[0], a[1]):
+                    return _unfz_shallow(kv[1])
+            if op == "lookup":
+                return T("raise", ("KeyError",), ANY)
+            return _unfz_shallow(a[2]) if len(a) > 2 else None
     except (TypeError, ValueError, IndexError):
         pass
     return T(op, a, ty)
@@ -911,6 +991,10 @@ _CMP = {"lt": "<", "le": "<=", "gt": ">", "ge": ">=", "eq": "==", "ne": "!=", "i
 def show(v, depth=0):
     if depth > 40:
         return "…"
+    return _fmt(v, lambda x: show(x, depth + 1))
+
+
+def _fmt(v, rec):
     if isinstance(v, T):
         o, a = v.op, v.args
         if o == "param":
@@ -920,18 +1004,17 @@ def show(v, depth=0):
         if o == "unk":
             return "?%s" % (a[0],)
         if o in _INFIX:
-            return "(" + _INFIX[o].join(show(x, depth + 1) for x in a) + ")"
+            return "(" + _INFIX[o].join(rec(x) for x in a) + ")"
         if o == "cmp":
-            return "(%s %s %s)" % (show(a[1], depth + 1), _CMP.get(a[0], a[0]), show(a[2], depth + 1))
+            return "(%s %s %s)" % (rec(a[1]), _CMP.get(a[0], a[0]), rec(a[2]))
         if o == "app":
-            kw = ["%s=%s" % (k, show(x, depth + 1)) for k, x in a[2]]
-            return "%s(%s)" % (a[0], ", ".join([show(x, depth + 1) for x in a[1]] + kw))
+            kw = ["%s=%s" % (k, rec(x)) for k, x in a[2]]
+            return "%s(%s)" % (a[0], ", ".join([rec(x) for x in a[1]] + kw))
         if o == "slice":
-            return "%s[%s:%s]" % (show(a[0], depth + 1), "" if a[1] is None else show(a[1], depth + 1),
-                                  "" if a[2] is None else show(a[2], depth + 1))
+            return "%s[%s:%s]" % (rec(a[0]), "" if a[1] is None else rec(a[1]), "" if a[2] is None else rec(a[2]))
         if o == "idx":
-            return "%s[%s]" % (show(a[0], depth + 1), show(a[1], depth + 1))
-        return "%s(%s)" % (o, ", ".join(show(x, depth + 1) for x in a))
+            return "%s[%s]" % (rec(a[0]), rec(a[1]))
+        return "%s(%s)" % (o, ", ".join(rec(x) for x in a))
     if isinstance(v, bytes):
         if len(v) > 12 and len(set(v)) == 1:
             return "%02x*%d" % (v[0], len(v))
@@ -939,11 +1022,11 @@ def show(v, depth=0):
     if isinstance(v, int) and not isinstance(v, bool) and abs(v) > 2 ** 20:
         return hex(v)
     if isinstance(v, tuple) and v and v[0] in ("#list", "#tuple"):
-        return "[" + ", ".join(show(x, depth + 1) for x in v[1:]) + "]"
+        return "[" + ", ".join(rec(x) for x in v[1:]) + "]"
     if isinstance(v, (list, tuple)):
-        return "[" + ", ".join(show(x, depth + 1) for x in v) + "]"
+        return "[" + ", ".join(rec(x) for x in v) + "]"
     if isinstance(v, dict):
-        return "{" + ", ".join("%s: %s" % (show(k, depth + 1), show(x, depth + 1)) for k, x in v.items()) + "}"
+        return "{" + ", ".join("%s: %s" % (rec(k), rec(x)) for k, x in v.items()) + "}"
     return repr(v)
 
 
